@@ -20,7 +20,7 @@ src,out,id_,pkgdir,caught,detail=sys.argv[1:7]
 d=json.load(open(src))
 meta={"id":id_,"property":d.get("property"),"origin":"fresh sub-agent given only the property text and a scratch worktree",
  "summary":d.get("summary"),"files":d.get("files"),"mechanism":d.get("mechanism"),"trigger":d.get("trigger"),
- "demo":{"file":[f for f in __import__('os').listdir(__import__('os').path.dirname(out)) if 'demo' in f][0],"place_in":pkgdir,"run":"go test -vet=off -count=1 -run Test . (in that package directory)",
+ "demo":{"file":[f for f in __import__('os').listdir(__import__('os').path.dirname(out)) if 'demo' in f][0],"place_in":pkgdir,"run":"go test "+("-race " if __import__('os').environ.get('SEED_RACE') else "")+"-vet=off -count=1 -run Test . (in that package directory)",
          "on_original":"passes","on_changed":"fails"},
  "confirmed":{"builds":True,"vet_clean":True,"existing_suite_passes":True,"demo_passes_on_original":True,"demo_fails_on_changed":True},
  "caught_by":caught.split(),"first_reports":[l.strip() for l in detail.splitlines()][:6]}
